@@ -22,7 +22,7 @@ FEATURES = {
     "wgrid": ["lin", "log", "extrap", "disc"],
     "k": ["none", "lin", "log"],
     "g": [0, 1],
-    # "three": THREE stochastic states h (deps h,d), g (deps g), m (deps m), all with two labels
+    # "three": THREE stochastic states h (deps h,d; 2 labels), g (deps g; 2 labels), m (deps m; 3 labels)
     # "h3": THREE labels, deps (h) (rows like (0.5, 0, 0.5) have a zero between positive entries)
     # "excl": deps (s, d) and a states-only filter excluding (s=2, h=1); e1.Built zeroes P(h'=1 | next_s = 2),
     # i.e. the excluded combination is a probability-zero node of the expectation
@@ -331,7 +331,7 @@ def make_source(fv):
     if has_g:
         states.append(("g", "D(2)"))
     if fv["h"] == "three":
-        states.append(("m", "D(2)"))
+        states.append(("m", "D(3)"))  # another label count than h and g
     if has_k:
         states.append(("k", "Lin(0.5, 2.0, 3)" if fv["k"] == "lin" else "Log(0.5, 2.0, 4)"))
     choices = [("d", "D(2)")]
@@ -357,7 +357,7 @@ def make_source(fv):
     if fv["h"] in ("two", "three"):
         shocks["g"] = [2, 2]
     if fv["h"] == "three":
-        shocks["m"] = [2, 2]
+        shocks["m"] = [3, 3]
     src = "\n\n".join(L)
     return src, states, choices, funcs, P, shocks
 
